@@ -22,12 +22,24 @@ RULE = ("E2: random workflows grown through the real Workflow API (steps with ou
         "one node is deleted and at least one detached node survives or a file is queued; distinct by the dumped "
         "graph. Oracle: the real Builder.finalize on real temporary trees after a successful unrestricted build: "
         "every unmodified output of a dropped or reverted optional step is gone from disk and graph unless a "
-        "surviving chain to an attached consumer or a cycle holds it; emptied directories are gone.")
+        "surviving chain to an attached consumer or a cycle holds it; emptied directories are gone; whether an "
+        "optional step is needed is recomputed by the oracle from the declared need and the edges, never read from "
+        "step._implied_need.  Between the rounds of plan edits (1-3 per case) the scheduler's metadata update runs, "
+        "as in a real build.  Directed families, every shape on every run: nested-drop (a chain of creators / "
+        "sub-plans of depth <= 3, thorough 4; a producer at level lp, its only consumer at level lc > lp, the creator "
+        "of level ld in lp < ld <= lc no longer created; producer optional or not, output regular / volatile / in "
+        "a directory, two optional producers in a row) at the Workflow level and through the real serve(); the "
+        "three-build rename scenarios.  E3: harness/clean_e3gen.py histories (plan trees of depth <= 4, optional "
+        "producers consumed only further down, whole sub-plans dropped and re-added at any level, steps dropped / "
+        "moved / renamed / re-roled, static() lines dropped while the file is still an input) and harness/e3_gen.py "
+        "histories with user tampering, --no-clean and targets; after every successful unrestricted build the "
+        "property itself is evaluated on disk and graph text.")
 TRUSTED_BASE = [
     "Coq 8.16.1 kernel (vm_compute in Examples and in the correspondence evaluation; no native_compute)",
     "Print Assumptions: Closed under the global context for every C07 theorem",
     "translator/gen_clean.py (AST/SQL shapes of Builder.finalize, File/Step.before_delete, Trellis/Workflow.delete_detached, revert_optional_steps)",
-    "harness/clean_common.py + p_c07.py (graph dump by SQL, Gallina printers, scenario generator)",
+    "harness/clean_common.py + clean_e3gen.py + p_c07.py (graph dump by SQL, Gallina printers, scenario generators, "
+    "the oracle's own computation of 'needed' and 'held')",
     "model evaluated inside Coq by vm_compute; no extraction",
 ]
 ASSUMPTIONS = [
@@ -64,8 +76,9 @@ async def _e2_cases(ctx, ncase):
                 b = cc.Builder(w, rng, disk=False)
                 made = b.grow(rng.randint(2, 7))
                 b.complete_all(made, fraction=rng.choice([1.0, 0.7]))
+                b.meta()
                 b.outdate_some(made, prob=0.2)
-                b.drop_random(made)
+                b.evolve(made)
             await cc.update_meta(w)
             do_revert = rng.random() < 0.5
             async with w.db:
@@ -131,8 +144,20 @@ def correspondence(ctx):
                                  "error": c["err"]})
 
 
-async def _finalize_cases(ctx, n):
+async def _directed_cases(ctx):
+    """Every shape of the nested-drop family (creator chains of depth <= 3, thorough: 4); variants rotate with the seed."""
     out = []
+    for j, shape in enumerate(cc.nested_drop_shapes(ctx.scale(3, 4))):
+        with cc.project_dir():
+            w = cc.nested_drop_witness(*shape, j + ctx.seed)
+            r = await cc.disk_case(ctx.rng, "none", cc.HashIds(), witness=w, quiet=(j + ctx.seed) % 4 != 0)
+            r["directed"] = w.info
+            out.append(r)
+    return out
+
+
+async def _finalize_cases(ctx, n):
+    out = await _directed_cases(ctx)
     for k in range(n):
         hids = cc.HashIds()
         with cc.project_dir():
@@ -150,7 +175,8 @@ async def _finalize_cases(ctx, n):
 
 
 def _wit(res):
-    return {"operations": res["log"], "returncode": res["returncode"], "tree_before": res["before_fs"],
+    return {"directed": res.get("directed"),
+            "operations": res["log"], "returncode": res["returncode"], "tree_before": res["before_fs"],
             "tree_after": res["after_fs"], "events": res["events"][-12:], "edits": res["edits"],
             "graph_before": cc.graph_json(res["before_graph"])}
 
@@ -168,6 +194,9 @@ def _run_oracle(ctx, n, suffix=""):
         ctx.count("finalize_removed_paths", nrem)
         ctx.count("finalize_deleted_nodes", ndel)
         ctx.count("finalize_detached_survivors", sum(1 for x in r["after_graph"]["nodes"] if x["det"]))
+        if "directed" in r:
+            ctx.count("directed_nested_drop_cases", 1)
+            ctx.count("directed_nested_drop_optional_producer", int(r["directed"]["optional"]))
         if "rename" in r:
             ctx.count("rename_three_build_cases", 1)
             old = r["rename"]["old"]
@@ -215,20 +244,32 @@ def _e3_part(ctx, n):
             if sig not in seen:
                 seen.add(sig)
                 ctx.add_failure("oracle", "e3-rename", sig, detail, witness=rec)
-    for rec in cc.e3_histories(ctx.rng, n, 7000 + 1000 * ctx.seed):
+    stats = {}
+    recs = cc.e3_directed("nested-drop", ctx.seed, ctx.scale(3, 4))
+    recs += cc.e3_histories(ctx.rng, n, 7000 + 1000 * ctx.seed, family="nested", stats=stats)
+    recs += cc.e3_histories(ctx.rng, max(4, n // 2), 7000 + 1000 * ctx.seed)
+    for rec in recs:
         if "error" in rec:
             ctx.count("e3_harness_errors", 1)
+            ctx.notes.append(f"e3 {rec['family']} seed {rec['seed']} phase {rec['phase']}: {rec['error'][:160]}")
             continue
         ok = not (rec["kw"].get("targets") or not rec["kw"].get("clean", True) or (rec["rc"] & ~8) != 0)
         nrem = sum(1 for p in rec["before_files"] if p not in rec["after_files"])
-        ctx.case(("e3", rec["seed"], rec["phase"]), ok and nrem > 0)
+        fam = rec["family"]
+        ctx.case(("e3", fam, rec["seed"], rec["phase"]), ok and nrem > 0)
         ctx.count("e3_builds", 1)
+        ctx.count(f"e3_builds_{fam}", 1)
         ctx.count("e3_successful_unrestricted_builds", int(ok))
         ctx.count("e3_removed_files", nrem)
+        if ok:
+            steps, needed = cc.e3_needed_steps(rec["graph"])
+            ctx.count("e3_unneeded_optional_steps_after_successful_builds", len(steps) - len(needed))
         for sig, detail in cc.e3_oracle_c07(rec):
             if sig not in seen:
                 seen.add(sig)
                 ctx.add_failure("oracle", "e3", sig, detail, witness=cc.e3_witness(rec))
+    for key, v in sorted(stats.items()):
+        ctx.count("e3_nested_gen_" + key, v)
 
 
 def oracle(ctx):
